@@ -883,6 +883,11 @@ def h_abs(I, st, a, t, b):
     return iv_abs(_f(a[0]))
 
 
+def h_mul_add(I, st, a, t, b):
+    # x.mul_add(y, z) = x * y + z (one rounding instead of two; the intervals are widened by rounding slack anyway)
+    return iv_add(iv_mul(_f(a[0]), _f(a[1])), _f(a[2]))
+
+
 def h_is_infinite(I, st, a, t, b):
     x = a[0]
     if x.lo == x.hi and math.isinf(x.lo) and not x.nan:
@@ -1060,7 +1065,7 @@ def h_clone(I, st, a, t, b):
 
 
 BUILTINS = {
-    'f64::abs': h_abs, 'f32::abs': h_abs,
+    'f64::abs': h_abs, 'f32::abs': h_abs, 'f64::mul_add': h_mul_add, 'f32::mul_add': h_mul_add,
     'f64::is_infinite': h_is_infinite, 'f64::is_finite': h_is_finite, 'f64::is_nan': h_is_nan,
     'f64::rem_euclid': h_rem_euclid, 'f64::signum': h_signum,
     'f64::to_radians': h_to_radians, 'f64::to_degrees': h_to_degrees,
